@@ -133,6 +133,31 @@ class Codec:
 
         return fixmsg + SEP
 
+    def _frame_end(self, msg: str) -> int:
+        """Finds the end of the first message of `msg` using BodyLength and CheckSum.
+
+        Returns: position after the message, -1 if BodyLength doesn't lead to
+                 CheckSum(10=ddd<SOH>) field (or it has not arrived yet)
+        """
+        i_len = msg.find(self.SOH)
+        if i_len == -1 or not msg.startswith("9=", i_len + 1):
+            return -1
+        i_body = msg.find(self.SOH, i_len + 1)
+        if i_body == -1:
+            return -1
+        body_len = msg[i_len + 3 : i_body]
+        if not body_len.isdigit() or not body_len.isascii() or len(body_len) > 9:
+            return -1
+        i_trailer = i_body + 1 + int(body_len)
+        if (
+            msg.startswith("10=", i_trailer)
+            and msg[i_trailer - 1] == self.SOH
+            and msg[i_trailer + 3 : i_trailer + 6].isdigit()
+            and msg[i_trailer + 6 : i_trailer + 7] == self.SOH
+        ):
+            return i_trailer + 7
+        return -1
+
     def decode(
         self,
         rawmsg: bytes,
@@ -151,22 +176,34 @@ class Codec:
         valid_idx = rawmsg.find(b"8=FIX.")
         if valid_idx == -1:
             assert silent, "no fix header"
-            return None, len(rawmsg), None
+            # Keep possible beginning of the next message header split by socket read
+            n_keep = 0
+            for k in range(min(5, len(rawmsg)), 0, -1):
+                if rawmsg.endswith(b"8=FIX."[:k]):
+                    n_keep = k
+                    break
+            return None, len(rawmsg) - n_keep, None
 
         parsed_length = valid_idx
 
         msg = rawmsg[valid_idx:].decode("latin-1")
 
-        next_msg = msg[5:].find("8=FIX.")
-        if next_msg != -1:
-            # Next fix message added, but incomplete
-            next_msg += 5
-        else:
-            next_msg = len(msg)
+        # Message delimited by its own BodyLength and CheckSum (if consistent)
+        next_msg = self._frame_end(msg)
+        is_framed = next_msg != -1
+        if not is_framed:
+            next_msg = msg[5:].find("8=FIX.")
+            if next_msg != -1:
+                # Next fix message added, but incomplete
+                next_msg += 5
+            else:
+                next_msg = len(msg)
+        has_next_msg = next_msg < len(msg)
 
         encoded_msg = rawmsg[valid_idx : next_msg + valid_idx]
 
         msg = msg[:next_msg].split(self.SOH)
+        is_terminated = not msg[-1]
         if not msg[-1]:
             msg = msg[:-1]
 
@@ -174,6 +211,12 @@ class Codec:
         if len(msg) < 3:
             assert silent, "Minimum message"
             return (None, parsed_length, None)
+
+        if not is_terminated:
+            # last field is not complete: wait for the rest, or skip this message if
+            #   the next one has already begun
+            assert silent, "incomplete message"
+            return (None, parsed_length + (next_msg if has_next_msg else 0), None)
 
         tag, value = msg[0].split("=", 1)
         if value != self.protocol.beginstring:
@@ -191,17 +234,26 @@ class Codec:
         tag, value = toks
 
         msg_length = len(msg[0]) + len(msg[1]) + len("10=000") + 3
-        if tag != FTag.BodyLength:
+        if tag != FTag.BodyLength or not value.isdigit() or not value.isascii():
             logging.error(f"*** BodyLength missing or not 2nd field *** [{tag}]: {msg}")
             assert silent, "2nd tag must be BodyLength"
             return (None, len(rawmsg), None)
         else:
             msg_length += int(value)
 
-        # message looks incomplete
-        if msg_length > len(rawmsg):
+        # message looks incomplete (unless it is followed by another message and
+        #   ends with a CheckSum field: BodyLength is wrong then)
+        if msg_length > len(rawmsg) - valid_idx and not (
+            has_next_msg and is_terminated and msg[-1].startswith("10=")
+        ):
             assert silent, "incomplete message"
             return (None, parsed_length, None)
+
+        if has_next_msg:
+            # never skip any part of the following message
+            msg_length = next_msg
+        else:
+            msg_length = min(msg_length, len(rawmsg) - valid_idx)
 
         checksum_passed = False
         parsed_length += msg_length
@@ -218,13 +270,19 @@ class Codec:
                 return (None, len(rawmsg), None)
             tag, value = toks
 
+            if not tag.isdigit() or not tag.isascii():
+                assert silent, f"invalid tag {m}"
+                return (None, parsed_length, None)
+
             if tag == FTag.CheckSum:
                 cheksum_base = self.SOH.join(msg[:-1])
                 checksum = (sum([ord(i) for i in cheksum_base]) + 1) % 256
 
-                if checksum != int(value):
+                # CheckSum is always 3 digits
+                is_cksum_valid = len(value) == 3 and value.isdigit() and value.isascii()
+                if not is_cksum_valid or checksum != int(value):
                     logging.warning(
-                        "\tCheckSum: %s (INVALID) expecting %s" % (int(value), checksum)
+                        "\tCheckSum: %s (INVALID) expecting %s" % (value, checksum)
                     )
                     assert (
                         silent
